@@ -153,6 +153,8 @@ theorem nameLoop_enc (buf : Bytes) {d off e : Nat} {labels : List Bytes} (henc :
 /-- the octets `b` lie in the datagram at offset `off` -/
 def IsAt (buf : Bytes) (off : Nat) (b : Bytes) : Prop := (buf.drop off).take b.length = b
 
+instance (buf : Bytes) (off : Nat) (b : Bytes) : Decidable (IsAt buf off b) := by unfold IsAt; infer_instance
+
 theorem IsAt.getElem? {buf b : Bytes} {off : Nat} (h : IsAt buf off b) (i : Nat) (hi : i < b.length) :
     buf[off + i]? = b[i]? := by
   unfold IsAt at h
@@ -257,9 +259,9 @@ theorem rrUnpack_enc {buf : Bytes} {off off' : Nat} {rr : RR} (h : EncRR buf off
     have r4 := rd16_of_isAt (by simpa [be16] using h4) hlen
     have hend : e + 10 + rdata.length ≤ buf.length := by
       rcases h4.end_le with hb | hb
-      · simp [be16] at hb
+      · simp at hb
       · rcases hat.end_le with hc | hc
-        · simp [be16] at hb; simp [hc]; omega
+        · simp at hb; simp [hc]; omega
         · omega
     unfold rrUnpack
     rw [nameUnpack_enc henc hd hfit]
@@ -375,8 +377,8 @@ theorem messageUnpack_enc {buf : Bytes} {m : Msg} (h : EncMsg buf m) :
   have r2 := rd16_of_isAt (by simpa [be16] using a2) hqc
   have hend : e + 4 ≤ buf.length := by
     rcases a2.end_le with hb | hb
-    · simp [be16] at hb
-    · simp [be16] at hb; omega
+    · simp at hb
+    · simp at hb; omega
   have e4 := qFixedSz_eq
   have hq : queryUnpack buf 12 = .ok (m.query, e + 4) := by
     unfold queryUnpack
